@@ -10,10 +10,10 @@ CHECKS = {
     "C01": ("E1", "model_checking",
             "explicit-state model checking of the real ValidateBlock/ApplyBlock/RevertBlock over bounded block histories, lock-step with an independent reference ledger",
             "Every state of every block history over four focused alphabets (payments, siafunds, v1 contracts, v2 contracts; all ordered tuples of <=K actions per block, <=D non-empty blocks, reverts <=R, horizon H) on 4-6 compact networks covering all hardfork eras satisfies the supply equation, store==ledger element by element, constant siafunds, exact claims and fees==miner payout; exhaustive within the stated bounds.",
-            "Independent reference ledger (math/big arithmetic) and naive Merkle forest; hashes/signatures treated as uninterpreted tokens (state merging by ID-free canonical key); histories beyond the bounds not covered.", "3/C01"),
+            "Independent reference ledger (math/big arithmetic) and naive Merkle forest; hashes/signatures treated as uninterpreted tokens (state merging by ID-free canonical key); histories beyond the bounds not covered. The supply equation is strengthened inductively: a live v2 contract with missed host value above its host output has its expiration played out on a clone and the overpayment measured. Known finding: below the ephemeral-output height such a revision is accepted (legacy rule) and its expiry creates siacoins.", "3/C01"),
     "C02": ("E1", "model_checking",
             "explicit-state exploration + exhaustive second-use attack menu against the real ValidateBlock at every reachable state",
-            "At every distinct state of a union-alphabet exploration, for one canonical live element of every kind, every ordered pair (first use, second use) x every placement (same transaction, same block, next block stale proof, next block maintained proof, after reorg) is built, re-signed and sealed; all must be rejected, and each use alone (control) must be accepted. Along all accepted histories the reference ledger never sees an element spent twice.",
+            "At every distinct state of a union-alphabet exploration, for one canonical live element of every kind, every ordered pair (first use, second use) x every placement (same transaction, same block, same block after an in-block revision of the contract, next block stale proof, next block maintained proof, after reorg) is built, re-signed and sealed; all must be rejected, and each use alone (control) must be accepted. Along all accepted histories the reference ledger never sees an element spent twice.",
             "Control experiments guard against vacuous rejections; bounds H/D/K as reported in evidence.", "3/C02"),
     "C03": ("E1", "model_checking",
             "exhaustive single-point tampering (reflection walk + structured substitutions + compensating value moves) of 20 signed templates at one state per height of every network family, through the real ValidateBlock",
@@ -72,7 +72,7 @@ CHECKS = {
     "C19": ("E4", "fault_enumeration",
             "exhaustive single-fault injection (every byte position x 3 flips, every truncation, extreme length prefixes) on recorded frames of real sessions through an in-memory man-in-the-middle; exhaustive size sweeps of every RPC object against the receiver's own limit",
             "Every rhp/v4 and gateway RPC object at sizes 0,1,2,max-1,max,max+1 of every dimension (protocol maxima from the batch limits, Validate methods and independent proof-size arithmetic) is written with the real writer and read from a byte-counting endless reader: valid messages fit the receiver's limit and decode to equal objects, over-limit messages error, reads never exceed the limit, hostile length prefixes neither panic nor allocate out of proportion (worker subprocess); every predeclared error and description length/code is delivered as that RPCError; every sequence of <=3 message shapes over gateway, rhp/v3 and rhp/v2 transports arrives intact and in order; handshake mismatches are rejected; after any tampered frame the read fails, no later read succeeds and (rhp/v2, frame delivered completely) the session is closed.",
-            "mux-based transports are tampered only within the first 2 KiB (8 KiB thorough) per direction (dependency, deterministic-batching limit). Known findings: RPCFreeSectorsResponse worst case exceeds its own limit; RPCReadResponse decode precedes tag verification on the RawResponse path. Fixed: rhp/v2 size errors did not close the transport (repo commit fca6cd6).", "3/C19"),
+            "mux-based transports are tampered only within the first 2 KiB (8 KiB thorough) per direction (dependency, deterministic-batching limit). Known finding: RPCFreeSectorsResponse worst case exceeds its own limit. Fixed: rhp/v2 size errors did not close the transport (fca6cd6), RPCReadResponse decoded an unchecked length before tag verification (3d45940), VerifyTag padding for ciphertext lengths that are multiples of 16 (20f849c).", "3/C19"),
     "C20": ("E2", "exploration",
             "bounded exhaustive enumeration of structured value domains (reflection deviations) for every text/JSON type, exhaustive single-character corruptions of identifiers, and JSON round trips of every update of an explicit-state chain exploration",
             "For every type with a textual or JSON form (inventory built with go/parser at run time, 115 types) parse(print(v)) = v over boundary/base values and all single-field (thorough: pairwise) deviations, incl. all one-byte (thorough two-byte) specifiers, policies in string and JSON form, reused receivers; every single-character corruption of 16 addresses (76 positions x 15 digits) and length/alphabet/prefix corruptions of every identifier type are rejected without panic; for every block of a chain exploration (with reverts) the ApplyUpdate/RevertUpdate that went through JSON refreshes every tracked proof byte-identically to the original and to the reference forest.",
